@@ -92,6 +92,17 @@ Proof.
       |destruct (Cc x Hx) as [u Hu]; holder t u Hu E].
 Qed.
 
+Lemma cov_cancel s t v slot : Inv N s -> Cov s -> pslot (thr s t) = Some slot -> etail s = slot + 1 -> Cov (cancel s t v slot).
+Proof.
+  intros I [Cp Cc] Hps He. unfold cancel. split; simp_st; intros x Hx.
+  - destruct (Cp x ltac:(lia)) as [u Hu]. exists u. destruct (Nat.eq_dec u t) as [->|?].
+    + rewrite Hps in Hu. injection Hu as <-. lia.
+    + now rewrite upd_other.
+  - destruct (Cc x Hx) as [u Hu]. exists u. destruct (Nat.eq_dec u t) as [->|?].
+    + exfalso. destruct (thr s t); cbn in Hps, Hu; discriminate.
+    + now rewrite upd_other.
+Qed.
+
 Theorem invcov_reachable evs : Inv N (run evs) /\ Cov (run evs).
 Proof.
   assert (G : forall s, Inv N s /\ Cov s -> Inv N (fold_left exec evs s) /\ Cov (fold_left exec evs s)).
